@@ -53,6 +53,9 @@ func checkC04(c *Check) {
 		c.undecided("O-C04.3", "request helper", "no call of ocsp.ParseResponseForCert found", "")
 		return
 	}
+	if h2 := ocspExchangeHelper(c); h2 != nil {
+		helper = h2
+	}
 	H := c.P.abbrev(helper.Obj.FullName())
 
 	// ---------------- (H) the request helper -----------------------------------
@@ -454,4 +457,50 @@ func instOfAtomPrefix(pg *PG, prefix string) (*Node, *Instance) {
 		}
 	}
 	return nil, nil
+}
+
+// ocspExchangeHelper: the function that performs one OCSP exchange - the lowest product function
+// whose call tree holds both the HTTP round trip ((*http.Client).Do) and the verification
+// (ocsp.ParseResponseForCert), however the steps in between are split into helpers.
+func ocspExchangeHelper(c *Check) *FuncSrc {
+	holds := func(callee string) map[*FuncSrc]bool {
+		m := map[*FuncSrc]bool{}
+		for _, s := range c.P.callSites(func(n string) bool { return n == callee }) {
+			m[s.Fn] = true
+		}
+		return m
+	}
+	do, parse := holds("(*net/http.Client).Do"), holds("golang.org/x/crypto/ocsp.ParseResponseForCert")
+	has := func(tree []*FuncSrc) bool {
+		d, p := false, false
+		for _, f := range tree {
+			d = d || do[f]
+			p = p || parse[f]
+		}
+		return d && p
+	}
+	var best *FuncSrc
+	for _, fs := range c.P.productFuncs() {
+		if !strings.HasSuffix(fs.Pkg.PkgPath, "/revocation/internal/ocsp") {
+			continue
+		}
+		name := c.P.abbrev(fs.Obj.FullName())
+		tree := c.callTree([]string{name})
+		if !has(tree) {
+			continue
+		}
+		lowest := true
+		for _, f := range tree {
+			if f != fs && has(c.callTree([]string{c.P.abbrev(f.Obj.FullName())})) {
+				lowest = false
+			}
+		}
+		if lowest {
+			if best != nil {
+				return nil // ambiguous
+			}
+			best = fs
+		}
+	}
+	return best
 }
